@@ -539,16 +539,51 @@ func forwardRef(c Case) bool {
 	if constraints < 2 {
 		return false
 	}
+	// pass 1: resolved forward references
 	m := newModel(c.Pipeline)
-	for _, o := range c.Ops {
+	parties := map[string]bool{} // referrers and anchors of resolved forward After references
+	type ref struct{ from, to string }
+	fwd := map[ref]bool{}
+	firstResolution := -1
+	for i, o := range c.Ops {
 		if o.Kind == "register" {
 			for n, r := range m.live {
-				if n != o.Name && (r.before == o.Name || r.after == o.Name) {
-					return true
+				if n == o.Name {
+					continue
+				}
+				if r.before == o.Name {
+					return true // a resolved forward Before reference: the anchor's After slot is overwritten
+				}
+				if r.after == o.Name {
+					parties[n], parties[o.Name] = true, true
+					fwd[ref{n, o.Name}] = true
+					if firstResolution < 0 {
+						firstResolution = i
+					}
 				}
 			}
 		}
 		m.step(o)
+	}
+	if len(fwd) == 0 {
+		return false
+	}
+	// pass 2: a resolved forward After reference leaves bookkeeping on both parties (the anchor gets an
+	// implicit Before). It is only stable while nothing else names or removes a party.
+	for i, o := range c.Ops {
+		switch o.Kind {
+		case "remove":
+			if parties[o.Name] && i > firstResolution {
+				return true
+			}
+		case "register":
+			if o.Before != "" && parties[o.Before] {
+				return true
+			}
+			if o.After != "" && parties[o.After] && !fwd[ref{o.Name, o.After}] {
+				return true
+			}
+		}
 	}
 	return false
 }
@@ -863,4 +898,65 @@ func TestC17WitnessStarAnchor(t *testing.T) {
 			Case{pl, []Op{{Kind: "register", Name: "c1", After: "c3"}, {Kind: "register", Name: "c2"}, {Kind: "register", Name: "c3", After: "*"}}},
 		)
 	}
+}
+
+// TestC17ExploreForwardRef (development aid, not part of any tier): dumps every history of the
+// forward-reference class up to VERIF_C17_LEN together with the verdict on the current tree.
+func TestC17ExploreForwardRef(t *testing.T) {
+	out := os.Getenv("VERIF_C17_DUMP")
+	if out == "" {
+		t.Skip("development aid")
+	}
+	f, err := os.Create(out)
+	if err != nil {
+		t.Fatal(err)
+	}
+	defer f.Close()
+	maxLen := harness.EnvInt("VERIF_C17_LEN", 3)
+	pl := "query"
+	var rec func(prefix []Op, m *model)
+	rec = func(prefix []Op, m *model) {
+		for _, o := range nextOps(m, 3, true) {
+			ops := append(append([]Op(nil), prefix...), o)
+			c := Case{Pipeline: pl, Ops: ops}
+			if starAsAnchor(c) {
+				continue
+			}
+			if forwardRef(c) {
+				msg := checkCaseSafe(c)
+				b, _ := json.Marshal(map[string]interface{}{"ops": c.Ops, "fail": msg != "", "msg": msg})
+				f.Write(append(b, '\n'))
+			}
+			if len(ops) < maxLen {
+				res := applySafe(c)
+				if res == nil || res[len(res)-1].err != nil {
+					continue
+				}
+				m2 := newModel(pl)
+				for _, x := range ops {
+					m2.step(x)
+				}
+				rec(ops, m2)
+			}
+		}
+	}
+	rec(nil, newModel(pl))
+}
+
+func checkCaseSafe(c Case) (msg string) {
+	defer func() {
+		if p := recover(); p != nil {
+			msg = fmt.Sprintf("panic: %v", p)
+		}
+	}()
+	return checkCase(c)
+}
+
+func applySafe(c Case) (res []stepResult) {
+	defer func() {
+		if p := recover(); p != nil {
+			res = nil
+		}
+	}()
+	return apply(c)
 }
